@@ -80,8 +80,8 @@ fn bounds(tier: Tier) -> Bounds {
             softmax_len: 7,
             var_n: 12,
             long: long::LONG_QUICK.iter().chain(long::LONG_THOROUGH.iter()).copied().collect(),
-            adj_sigma: 10,
-            adj_vec_big: vec![11, 12, 13, 16, 21, 24, 32],
+            adj_sigma: 9,
+            adj_vec_big: vec![10, 11, 12, 13, 16, 21, 24, 32],
             adj_elem_lat: 12,
             e2_depth: (5, 5),
             e2_signs: vec![2, 0],
